@@ -227,6 +227,8 @@ func checkC14(w *World, r *Report) {
 	r.Rule("R14.2", "both ends closed after PipeData on every path (3 call sites)", 3)
 	r.Rule("R14.3", "stream accept loop terminates with the session (no error spin)", 1)
 	r.Rule("R14.4", "per-connection handlers close what they accepted", 2)
+	r.Rule("R14.6", "a wrapper is marked closed only by its Close (else later closes are skipped and the descriptor leaks)", 4)
+	ruleClosedFlagOnlyByClose(w, r, "R14.6")
 	r.Rule("R14.5", "no orphaned physical session: the shared connection/session are replaced only under the mutex and only after a reuse test made under it", 4)
 	ruleSharedSession(w, r, "R14.5", w.Method("internal/client/upstream", "Upstreams", "Connect"), w.Method("internal/client/upstream", "Upstreams", "open"))
 	ruleR14_1(w, r)
@@ -381,6 +383,8 @@ func checkC17(w *World, r *Report) {
 	r.Rule("R17.1", "close only after the copy into that side finished; EOF reported only after a clean copy", 2)
 	r.Rule("R17.2", "both ends closed after PipeData on every path", 3)
 	r.Rule("R17.3", "DNS end-of-stream only after buffered data; client Close notifies the server first", 3)
+	r.Rule("R17.7", "every Write reports the full count on success (a short count aborts io.Copy and cuts the transfer)", 4)
+	c01WriteCountsRule(w, r, "R17.7")
 	r.Rule("R17.6", "after the first copier reported, no close waits for the second report", 1)
 	r.Rule("R17.5", "a reader+writer pair closes its write half on every path (the peer's end-of-stream)", 1)
 	r.Rule("R17.4", "open transfers are not cut by another logical connection's failure (who may close the shared session)", 2)
